@@ -378,7 +378,12 @@ ElimTab == <<
     <<EV("e_s", 5, "-y")>>,
     <<EV("e_s", 5, "y+x")>>,
     <<EV("e_1", 1, "0")>>,
-    <<EV("e_1", 2, "t+1"), EV("e_2", 1, "0")>> >>
+    <<EV("e_1", 2, "t+1"), EV("e_2", 1, "0")>>,
+    \* chains of three: the fixpoint of the replacement values needs two rounds (one substitution is not enough);
+    \* the core row uses the LAST name, so after a single round it still mentions the first
+    <<EV("e_1", 1, "t+1"), EV("e_2", 1, "prev+1"), EV("e_3", 1, "prev+1")>>,
+    <<EV("e_1", 2, "2t-x"), EV("e_2", 3, "prev+1"), EV("e_3", 2, "prev+1")>>,
+    <<EV("e_1", 1, "p*t"), EV("e_2", 2, "prev+1"), EV("e_3", 3, "prev+1")>> >>
 
 (* initial equations: 0 none; 1 every state = literal; 2 also last alias / eliminable / constant
    variable = literal; 3 first state = parameter/constant + literal (when there is one) *)
@@ -853,7 +858,7 @@ ReplaceConstantValues ==
        ELSE Skip
 
 (* ---- eliminable_variable_expression (regular expression: prefix e_) ---- *)
-Eliminable(x) == x \in {"e_1", "e_2", "e_s"}     \* the names matching the regular expression e_.*
+Eliminable(x) == x \in {"e_1", "e_2", "e_3", "e_s"}     \* the names matching the regular expression e_.*
 (* extract_assignment: bare symbol; or OP_SUB/OP_ADD with a matching symbol on one side,
    algebraic states preferred over differentiated states *)
 EAMatch(e, algs, sts) ==
